@@ -453,3 +453,32 @@ func verifIfI64(c bool, a, b int64) int64 {
 	}
 	return b
 }
+
+func verifSameEncoded(a, b []byte) bool {
+	if (a == nil) != (b == nil) {
+		return false
+	}
+	ba, xa, ea := sgbucket.DecodeValueWithAllXattrs(a)
+	bb, xb, eb := sgbucket.DecodeValueWithAllXattrs(b)
+	if ea != nil || eb != nil {
+		return bytes.Equal(a, b)
+	}
+	if !bytes.Equal(ba, bb) || len(xa) != len(xb) {
+		return false
+	}
+	for k, v := range xa {
+		if w, ok := xb[k]; !ok || !bytes.Equal(v, w) {
+			return false
+		}
+	}
+	return true
+}
+func verifCount(cs ...bool) int {
+	n := 0
+	for _, c := range cs {
+		if c {
+			n++
+		}
+	}
+	return n
+}
